@@ -2779,6 +2779,35 @@ pub(crate) fn constrain_type(expr: &mut TypedExpr, expected: &Type) -> Result<()
                 overwrite_ty_if_necessary(actual, elem_ty);
             }
         }
+        (
+            ExprEnum::Range(_, to, num_ty),
+            Type::Array(elem_ty, _) | Type::ArrayConst(elem_ty, _),
+        ) if *num_ty == UnsignedNumType::Unspecified => {
+            // an unsuffixed range takes the element type it is used at, like an unsuffixed
+            // number (its elements would otherwise keep 32 bits under a narrower array type)
+            match elem_ty.as_ref() {
+                Type::Unsigned(expected_ty) => {
+                    // `from < to` was checked when the range was typed: the last element is `to - 1`
+                    if expected_ty.max().is_some_and(|max| *to - 1 > max) {
+                        let e = TypeErrorEnum::UnexpectedType {
+                            expected: expected.clone(),
+                            actual: expr.ty.clone(),
+                        };
+                        return Err(vec![Some(TypeError::new(e, expr.meta))]);
+                    }
+                    *num_ty = *expected_ty;
+                }
+                Type::Signed(_) => {
+                    // the elements of a range are unsigned numbers
+                    let e = TypeErrorEnum::UnexpectedType {
+                        expected: expected.clone(),
+                        actual: expr.ty.clone(),
+                    };
+                    return Err(vec![Some(TypeError::new(e, expr.meta))]);
+                }
+                _ => {}
+            }
+        }
         (ExprEnum::Identifier(_), Type::Tuple(elem_tys)) => {
             if let Type::Tuple(actual_elem_tys) = &mut expr.ty {
                 for (actual, expected) in actual_elem_tys.iter_mut().zip(elem_tys) {
